@@ -48,6 +48,17 @@ Theorem C08_tool_spec : forall g ls docs, line_preserving g ->
 Proof. exact tool_spec_proof. Qed.
 Print Assumptions C08_tool_spec.
 
+(* the same when every input line ends in CR LF (base64 written on Windows): the feeder reads
+   with strip_cr, so the CR is not part of the document's encoding *)
+Theorem C08_tool_spec_crlf : forall g ls docs, line_preserving g ->
+  Forall2 (fun l d => base64_decode l = DOk d) ls docs ->
+  forallb (no_delim 10) ls = true ->
+  forallb bytes_okb (map (doc_spec g) docs) = true ->
+  b64filter_tool g (unrecords 10 (map (fun l => l ++ [13]) ls))
+  = BOk (unrecords 10 (map (fun d => rfc4648 (doc_spec g d)) docs)).
+Proof. exact tool_spec_crlf_proof. Qed.
+Print Assumptions C08_tool_spec_crlf.
+
 (* canonical base64 in, identity child: the output stream is the input stream *)
 Theorem C08_tool_identity : forall docs, forallb bytes_okb docs = true ->
   b64filter_tool (fun l => l) (unrecords 10 (map rfc4648 docs)) = BOk (unrecords 10 (map rfc4648 docs)).
